@@ -20,9 +20,9 @@ The strings outside the guard are of two kinds:
   `''` (`out_of_range_format_empty`).  Recorded as an observation, not as a finding.
 * a year, month, season, week, weekend, week-of-month form followed by a time of day or part of day (`2020-05T05`,
   `2020T05`, `SUTMO`, …): the datatype ACCEPTS them (fields of both halves are assigned) and `timex_value()` drops the
-  time (`dt_guard_necessary`, for all digits; `noncombinable_witnesses` are the instances the check replays).  These are
-  strings of "the grammar the datatype accepts" built by the datatype's own date+time composition: finding
-  `noncombinable-date+time:<form>`.
+  time (`dt_guard_necessary`, for all digits; `noncombinable_witnesses` are the instances the check replays).  The
+  property does NOT quantify over them: its grammar lists "date+time combinations", and a year / month / season / week /
+  week-of-month followed by `T..` is not a date + time.  Recorded as an observation (evidence counter), not a finding.
 -/
 namespace RTV.Timex
 open RTV.Py RTV.Cal
@@ -217,12 +217,14 @@ theorem inRange_roundTrips (cfg : Cfg) (hc : CfgOK cfg) (w : WF) (hr : InRange w
 that is not combinable (year, year-month, season, year-season, ISO week, weekend, open month, week of month,
 `XXXX-MM-WXX-w-d`, and weekday `0`), every time form and all digits, the string is accepted (`dt_has_time`: the fields
 of the time half are assigned) and its `timex_value()` is a text with OTHER field values (`lossy`: the time of day is
-dropped).  Finding `noncombinable-date+time:<form>` (weekday `0` + time: out-of-range observation). -/
+dropped).  These strings are accepted by the datatype but lie outside the property's quantifier ("date+time
+combinations" are a date, an open-year date or a weekday followed by a time): the theorem documents exactly where the
+guard is needed and what the code does there. -/
 theorem dt_guard_necessary (cfg : Cfg) (hc : CfgOK cfg) (f : DateForm) (g : TimeForm) (hf : ¬ Combinable f) :
     ¬ RoundTrips cfg (renderD f ++ renderT g) :=
   not_roundTrips cfg _ _ (format_lossy cfg hc f g hf) (lossy_fields_differ cfg hc f g hf)
 
-/-- negative witnesses (replayed by the check on the implementation): `2020-05T05 ↦ 2020-05`, `2020T05 ↦ 2020`,
+/-- witnesses outside the guard (the check runs them through the unit correspondence): `2020-05T05 ↦ 2020-05`, `2020T05 ↦ 2020`,
 `SUTMO ↦ SU`, `2020-W05T05 ↦ 2020-W05`, `XXXX-05-WXX-2-3TMO ↦ XXXX-WXX-3TMO`; in each case the parsed string has a time of
 day / part of day / month that the re-parsed output lacks -/
 theorem noncombinable_witnesses :
